@@ -35,6 +35,33 @@ theorem replaceUrls_id (reload : Str → Bool × Str × Sheet) (sh : Sheet) (h :
     replaceUrls (total fun u => u) reload false sh = .ok (sh, getUrls sh) := by
   rw [replaceUrls_total, styleDeclsL_mapImports, mapImports_id reload sh h, mapRules_id]; rfl
 
+/-- T19.1e, "touches nothing else": the replacer is consulted on the URLs `getUrls` yields and on nothing else —
+two replacers that agree there give the same result, the same call log, the same exception -/
+theorem replaceUrls_local (f f' : Str → Except Err Str) (reload : Str → Bool × Str × Sheet) (sh : Sheet)
+    (h : ∀ u ∈ getUrls sh, f u = f' u) : replaceUrls f reload false sh = replaceUrls f' reload false sh :=
+  replaceUrls_congr f f' reload sh h
+
+/-- … so a replacer that may raise elsewhere but not on a URL of the sheet behaves like a total one:
+the result exists, the log is `getUrls sheet`, the new URLs are the replacer's answers -/
+theorem replaceUrls_partial_replacer (f : Str → Except Err Str) (reload : Str → Bool × Str × Sheet) (sh : Sheet)
+    (h : ∀ u ∈ getUrls sh, ∃ v, f u = .ok v) :
+    ∃ sh', replaceUrls f reload false sh = .ok (sh', getUrls sh) ∧
+      (getUrls sh').map Except.ok = (getUrls sh).map f := by
+  let g : Str → Str := fun u => match f u with
+    | .ok v => v
+    | .error _ => u
+  have hfg : ∀ u ∈ getUrls sh, f u = total g u := by
+    intro u hu
+    obtain ⟨v, hv⟩ := h u hu
+    simp [total, g, hv]
+  obtain ⟨sh', h1, h2⟩ := replaceUrls_getUrls g reload sh
+  refine ⟨sh', ?_, ?_⟩
+  · rw [replaceUrls_local f (total g) reload sh hfg, h1]
+  · rw [h2, List.map_map]
+    apply List.map_congr_left
+    intro u hu
+    simp [hfg u hu, total]
+
 /-- T19.1d, order: imports first, then every rule's URLs in document order — a rule's own declarations before
 those of its child rules (@page before its margin boxes, fix 8b00308), nested rules where they stand. -/
 theorem getUrls_order (sh : Sheet) : getUrls sh = importHrefs sh ++ rulesUris sh := rfl
@@ -110,6 +137,45 @@ theorem rebased_url_resolves_identically_partial (T D U : List Str) (g f : Str)
     · exact hU c hc
   have := rdsSegs_norm T (D ++ U) f h hf
   simpa [List.append_assoc] using this
+
+/-- nested imports: re-basing against the inner @import (`D2`) and then against the outer one (`D1`) resolves like
+the original URL seen through both directories — the per-edge statement composes (the output of one re-basing
+satisfies the guard of the next) -/
+theorem rebasing_composes_partial (T D1 D2 U : List Str) (f : Str)
+    (h1 : ∀ c ∈ D1, c ≠ []) (h2 : ∀ c ∈ D2, c ≠ []) (hU : ∀ c ∈ U, c ≠ []) (hf : Normal f) :
+    rdsSegs (T ++ normComps false (D1 ++ normComps false (D2 ++ U ++ [f])))
+      = rdsSegs (T ++ (D1 ++ (D2 ++ U ++ [f]))) := by
+  have hin : ∀ c ∈ D2 ++ U, c ≠ [] := by
+    intro c hc
+    rcases List.mem_append.mp hc with hc | hc
+    · exact h2 c hc
+    · exact hU c hc
+  have hinner : ∀ c ∈ D2 ++ U ++ [f], c ≠ [] := by
+    intro c hc
+    rcases List.mem_append.mp hc with hc | hc
+    · exact hin c hc
+    · simp at hc; subst hc; exact hf.1
+  -- the inner result ends in `f` and has no empty segment
+  have hlast := normComps_getLast false (D2 ++ U) f hf
+  have hne := normComps_segs_nonempty (D2 ++ U ++ [f]) hinner
+  obtain ⟨X, hX⟩ : ∃ X, normComps false (D2 ++ U ++ [f]) = X ++ [f] := by
+    generalize normComps false (D2 ++ U ++ [f]) = l at hlast
+    rcases List.eq_nil_or_concat l with rfl | ⟨X, x, rfl⟩
+    · simp at hlast
+    · refine ⟨X, ?_⟩
+      simp [List.concat_eq_append] at hlast ⊢
+      exact hlast
+  have hXne : ∀ c ∈ X, c ≠ [] := fun c hc => hne c (by rw [hX]; simp [hc])
+  have houter : ∀ c ∈ D1 ++ X, c ≠ [] := by
+    intro c hc
+    rcases List.mem_append.mp hc with hc | hc
+    · exact h1 c hc
+    · exact hXne c hc
+  have s1 := rdsSegs_norm T (D1 ++ X) f houter hf
+  have s2 := rdsSegs_norm (T ++ D1) (D2 ++ U) f hin hf
+  rw [hX, ← List.append_assoc D1 X [f], s1]
+  rw [List.append_assoc D1 X [f], ← hX, ← List.append_assoc T D1, s2]
+  simp [List.append_assoc]
 
 /-- the same with the stacks spelled out: normalising never changes what dot-segment removal yields -/
 theorem normpath_then_resolve (S cs : List Str) (h : ∀ c ∈ cs, c ≠ []) :
@@ -317,5 +383,44 @@ theorem parse_fetches_each_found_target_once_partial (vfs : Vfs) (href : Str) (r
 theorem flatten_fetches_nothing_partial (vfs : Vfs) (href : Str) (sheet out : Sheet) (h : Flat sheet out) :
     (resolveImports vfs href sheet).log = [] := by
   rw [resolveImports_flat_partial vfs href sheet out h]
+
+/-! ## the fuel of the loader model is sufficient (so "termination" of loading is a theorem, not an assumption) -/
+
+/-- along an import chain no file occurs twice (recursion guard of fix bfd81fb), so `_setHref` nests at most as deep
+as there are files not yet on the chain: with more fuel than that the model never reports fuel exhaustion -/
+theorem setHref_noFuel' (vfs : Vfs) (who : Who) (fuel : Nat) (chain : List Str) (href media : Str)
+    (h : unvisited vfs chain < fuel) : (setHref fuel vfs who chain href media).val ≠ .error .fuel :=
+  setHref_noFuel vfs who fuel chain href media h
+
+/-- `parseSheet` (fuel `vfs.length + 2`) never runs out of fuel -/
+theorem parseSheet_noFuel (vfs : Vfs) (href : Str) (raw : Sheet) : (parseSheet vfs href raw).val ≠ .error .fuel := by
+  intro h
+  obtain ⟨hr, m, he⟩ := loadWith_error _ raw .fuel h
+  simp only [parseImp, twice_val] at he
+  have := unvisited_le vfs [href]
+  exact setHref_noFuel vfs .user (vfs.length + 2) [href] hr m (by omega) he
+
+/-- … nor does the re-fetch that `CSSStyleSheet.add` does for an @import whose target was not found -/
+theorem addRule_noFuel (vfs : Vfs) (th : Str) (target : Sheet) (r : Rule) :
+    (addRule vfs th target r).val ≠ .error .fuel := by
+  cases r with
+  | imp href media found t s =>
+    simp only [addRule]
+    split
+    · simp
+    · split
+      · rename_i e he
+        intro h; simp at h; subst h
+        have := unvisited_le vfs [th]
+        exact setHref_noFuel vfs .dflt (vfs.length + 2) [th] href media (by omega) he
+      · simp
+  | charset e => simp only [addRule]; split <;> simp
+  | ns p u => simp only [addRule]; repeat' split; all_goals simp
+  | comment _ => simp [addRule]
+  | style _ _ => simp [addRule]
+  | media _ _ => simp [addRule]
+  | page _ _ _ => simp [addRule]
+  | fontface _ => simp [addRule]
+  | unknown _ => simp [addRule]
 
 end CssVerif.C19
